@@ -48,6 +48,7 @@ type Fault struct {
 	// BEFORE the handler's constructor finalises it (e.g. a dealer that uses another polynomial from
 	// the very beginning, so that its commitment, its opening and its shares are all consistent).
 	WrapStart func(protocol.StartFunc) protocol.StartFunc `json:"-"`
+	Victim    party.ID                                    `json:"victim,omitempty"` // schedule "lag": the party that is served last
 }
 
 // PartyEnd describes how one party ended.
@@ -192,6 +193,27 @@ func run(spec *sess.Spec, seed int64, label string, f *Fault, observe func(drv.D
 			}
 			if pick < 0 {
 				pick = 0
+			}
+		}
+		if f != nil && f.Timing == "lag" && f.Victim != "" {
+			// schedule "lag": the victim is the slowest party.  Deliveries to it are made only when nothing else can
+			// be delivered, and then the message of the HIGHEST round first: the victim receives the others' messages
+			// of round k+1 (queued) before their messages of round k, and the last message of round k sets off the
+			// processing of the whole queue in one call
+			pick = -1
+			for i, q := range net.Queue {
+				if q.To != f.Victim {
+					pick = i
+					break
+				}
+			}
+			if pick < 0 {
+				pick = 0
+				for i, q := range net.Queue {
+					if q.M != nil && net.Queue[pick].M != nil && q.M.RoundNumber > net.Queue[pick].M.RoundNumber {
+						pick = i
+					}
+				}
 			}
 		}
 		d := net.Queue[pick]
